@@ -31,6 +31,27 @@ Proof. split; reflexivity. Qed.
 Lemma node_path_default c : node_path c = q_path c true.
 Proof. reflexivity. Qed.
 
+(* ---- Node.__eq__ ------------------------------------------------------------------------------------------------------ *)
+Lemma node_eq_equivalence :
+  (forall a, node_eq a a = true) /\ (forall a b, node_eq a b = node_eq b a) /\
+  (forall a b c, node_eq a b = true -> node_eq b c = true -> node_eq a c = true).
+Proof.
+  unfold node_eq. repeat split.
+  - intros a. apply Z.eqb_refl.
+  - intros a b. apply Z.eqb_sym.
+  - intros a b c H1 H2. apply Z.eqb_eq in H1, H2. apply Z.eqb_eq. congruence.
+Qed.
+
+(* == is about the data alone: nodes with equal data are equal whatever their identity, kind, data_id, meta, children *)
+Lemma node_eq_data_only id1 id2 i1 i2 ch1 ch2 : i_eqc i1 = i_eqc i2 -> node_eq (T id1 i1 ch1) (T id2 i2 ch2) = true.
+Proof. intros E. unfold node_eq; cbn. rewrite E. apply Z.eqb_refl. Qed.
+
+Lemma node_eq_own_data a : node_eq_obj a (i_eqc (rinfo a)) = true.
+Proof. apply Z.eqb_refl. Qed.
+
+Lemma node_hash_always_raises : forall (X : Type) (n : X), node_hash n = inl E_TYPE.
+Proof. reflexivity. Qed.
+
 (* ---- Tree.__eq__ ---------------------------------------------------------------------------------------------------- *)
 Lemma tree_eq_always_raises : forall (X : Type) (other : X), tree_eq other = inl E_NOTIMPL.
 Proof. reflexivity. Qed.
